@@ -89,8 +89,9 @@ package cipher
 
 //@ pred ccmok(c) := c != nil && c.cipher != nil && BS(id(c.cipher)) == 16 && 7 <= c.nonceSize && c.nonceSize <= 13 && 4 <= c.tagSize && c.tagSize <= 16 && c.tagSize % 2 == 0
 
+// (maxlen: 2^(8L) - 1 for L = 15 - nonce size, capped to what an int can hold)
 //@ func (*ccm).MaxLength trusted
-//@   ensures 0 < result && result <= 9223372036854775807 - c.tagSize
+//@   ensures 0 < result && result <= 9223372036854775807 - c.tagSize && result < pow2(8 * (15 - c.nonceSize))
 //@   modifies nothing
 
 // Seal: the output is dst || (P xor S_1..) || T and only the appended region is written. The tag is
@@ -123,9 +124,9 @@ package cipher
 // zero padded; then the rest of a, then the plaintext (each zero padded by cmac), and the result is
 // xored with the encrypted counter block A_0 and truncated to the tag size
 //@ func (*ccm).auth property C04
-//@   config ns in 7,8,9,10,11,12,13
-//@   config ts in 4,6,8,10,12,14,16
-//@   requires ccmok(c) && c.nonceSize == ns && c.tagSize == ts && len(nonce) == ns && tagMask != nil && len(plaintext) < pow2(8 * (15 - ns)) && len(plaintext) < 4611686018427387904 && len(additionalData) < 4611686018427387904
+//@   config ns in 7,8,9,10,11,12,13 = c.nonceSize
+//@   config ts in 4,6,8,10,12,14,16 = c.tagSize
+//@   requires ccmok(c) && len(nonce) == c.nonceSize && tagMask != nil && len(plaintext) < pow2(8 * (15 - ns)) && len(plaintext) < 4611686018427387904 && len(additionalData) < 4611686018427387904
 //@   let N := len(additionalData)
 //@   let HL := ite(N <= 65279, 2, ite(N < 4294967296, 6, 10))
 //@   let FL := ite(N < 16 - HL, N, 16 - HL)
